@@ -6,6 +6,7 @@ import (
 	"go/constant"
 	"go/token"
 	"go/types"
+	"os"
 	"strings"
 
 	"golang.org/x/tools/go/ssa"
@@ -33,7 +34,8 @@ func C15(c *Ctx) {
 	r.Explanation = "(A7 coverage agreement) per module: every store section written at run time (handlers, ante, begin/end block) is also written by genesis import, and is read by genesis export or is a derived section that import rebuilds under the stated guard (the enterprise raised/accepted queues from the order status); " +
 		"(literal completeness) every keyed struct literal of a module type built on an import/export route names every field of that type, and each imported record field comes from the like-named genesis field; exported in-state counters are recomputed from the exported records (len, first element); " +
 		"(A5) the export caps of both record modules are the constant 20000 and are what the reverse iteration stops at; (A8) import drops no error of a state setter (incl. SetParams); (A2) import asserts escrow balance == holdings for the enterprise and stream accounts; (A5) the four modules are in the init/export genesis order and implement InitGenesis/ExportGenesis. Byte-identical round trip and behavioural equivalence are not decided."
-	r.Rules = []string{"A7.section-coverage", "A7.derived-queues", "A7.literal-completeness", "A7.import-fields", "A7.export-counters", "A7.export-fields", "A5.export-cap", "A8.import-errors", "A2.genesis-balance", "A5.genesis-order"}
+	r.Rules = []string{"A7.section-coverage", "A7.derived-queues", "A7.literal-completeness", "A7.import-fields", "A7.export-counters", "A7.export-fields", "A5.export-cap", "A8.import-errors", "A2.genesis-balance", "A5.genesis-order", "A12.decode-fresh"}
+	decodeFresh(c, ir.Modules...)
 	r.Trusted = []string{"module manager runs InitGenesis/ExportGenesis in the configured order", "protobuf JSON round trip of the genesis document"}
 	r.NotDecided = []string{"byte-identical re-export", "behavioural equivalence of the imported chain", "registered invariants holding after import (numeric)"}
 
@@ -77,6 +79,10 @@ func C15(c *Ctx) {
 						if call, ok := s.(ssa.CallInstruction); ok {
 							a := call.Common().Args
 							idArg = w.ExprOf(a[len(a)-1])
+							// (the order may come out of a list prepared beforehand: resolved to the imported element)
+							if x := w.Expand(idArg, 4); x.Op == "field" && x.Name == "Id" {
+								idArg = x
+							}
 						}
 						g := w.Guarded(f, s, func(p ir.Pred) bool {
 							return cmpIs(p, "==", func(x *ir.Expr) bool {
@@ -106,8 +112,24 @@ func C15(c *Ctx) {
 						}
 						args := call.Common().Args
 						stored := w.ExprOf(args[len(args)-1])
+						storedX := w.Expand(stored, 4)
 						isStatusOfStored := func(x *ir.Expr) bool {
-							return x.Op == "field" && x.Name == "Status" && (x.Args[0].String() == stored.String() || stored.Op == "struct")
+							if x.Op != "field" || x.Name != "Status" {
+								return false
+							}
+							if x.Args[0].String() == stored.String() || stored.Op == "struct" || x.Args[0].String() == storedX.String() {
+								return true
+							}
+							// the stored order is a copy, field by field, of the imported element whose status is tested
+							if os.Getenv("MCDEBUG") == "dq" {
+								fmt.Fprintln(os.Stderr, "dq x=", x.String(), " storedX=", storedX.String()[:min(300, len(storedX.String()))])
+							}
+							if storedX.Op == "struct" {
+								if st := fieldOfStruct(storedX, "Status"); st != nil && st.String() == x.String() {
+									return true
+								}
+							}
+							return false
 						}
 						otherStatus := w.EstablishedEdges(f, func(p ir.Pred) bool {
 							// the status differs from the queue's status: tested as != status, or as == a different status constant (switch form)
@@ -115,7 +137,7 @@ func C15(c *Ctx) {
 								cmpIs(p, "==", isStatusOfStored, func(y *ir.Expr) bool {
 									return y.Op == "const" && y.Name != status && strings.Contains(y.Name, "types.Status")
 								})
-						}, 0)
+						}, 1)
 						bad := ir.AfterReachesBackEdgeWithoutCut(f, pw, isQ, otherStatus)
 						r.Require(len(bad) == 0, "A7.derived-queues", "every|"+sec, pos(c, pw), "every imported order with Status == "+status+" gets its queue entry (no imported order of that status is skipped)", "the next iteration is reachable for such an order without the queue write")
 					}
